@@ -103,6 +103,12 @@ def rule_narrowing(run, fx, rule, floors=True, roots=None, select=None, floor_n=
             if k[0] == "c" and isinstance(k[1], int) and (k[1] - 1).bit_length() <= cap:
                 run.ok(rule, "%s: %s as %s — operand is a remainder modulo %d" % (b.path, frm, to, k[1]))
                 continue
+        import overflow
+        iv = overflow.Intervals(fx, b, O.prov(b)).op(s["rv"]["op"])
+        rng = overflow.INT.get(to)
+        if iv is not None and rng is not None and rng[0] <= iv[0] and iv[1] <= rng[1]:
+            run.ok(rule, "%s: %s as %s — operand in [%d, %d] by interval arithmetic" % (b.path, frm, to, iv[0], iv[1]))
+            continue
         run.fail(rule, key, "lossy cast %s as %s in %s: the operand (%s) is not shown to fit; a value that does not fit is silently truncated" % (
             frm, to, b.path, cl[1] if len(cl) > 1 else cl[0]), b.loc(s), ledger="narrowing")
     if floors:
